@@ -1,3 +1,4 @@
 import Cicada.Thm.C18p
 import Cicada.Thm.C18more
+import Cicada.Thm.C18files
 /-! every theorem file of property C18 -/
